@@ -12,7 +12,19 @@ import (
 )
 
 func init() {
-	props["C02"] = propFn{run: runC02, replay: replayHist("C02")}
+	props["C02"] = propFn{run: runC02, replay: func(c *Ctx, f Failure) {
+		if m, ok := f.Case.(map[string]interface{}); ok {
+			if sh, ok := m["streamed"]; ok {
+				b, _ := jsonMarshal(sh)
+				var h c11hist
+				if jsonUnmarshal(b, &h) == nil {
+					c.c02Streamed(h)
+				}
+				return
+			}
+		}
+		replayHist("C02")(c, f)
+	}}
 	histCheckers["C02"] = func(c *Ctx, h hist, cases *[]mcase) { c.checkHistC02(h, cases) }
 }
 
@@ -189,4 +201,59 @@ func runC02(c *Ctx) {
 	}
 	c.compareBatch(cases)
 	c.overlapMergeProbe("C02")
+	nst := 40
+	if c.Thorough() {
+		nst = 1500
+	}
+	for i := 0; i < nst && !c.Failed(); i++ {
+		c.c02Streamed(c.c11Gen(3+c.Rng.Intn(10), false))
+	}
+}
+
+// a worksheet written through a StreamWriter (flushed, still held in memory) next to an ordinary sheet:
+// saving must neither change what the getters report nor what the next save writes
+func (c *Ctx) c02Streamed(h c11hist) {
+	// GetCols decodes the worksheet once per column: keep the rows away from column XFD
+	var near []c11op
+	for _, o := range h.Ops {
+		if o.Op == "row" && colOf(o.Cell) > 40 {
+			continue
+		}
+		near = append(near, o)
+	}
+	h.Ops = near
+	desc := map[string]interface{}{"streamed": h}
+	c.guard("C02_no_panic", desc, func() {
+		f, _, _, err := c11Stream(h)
+		if err != nil {
+			c.R.Dist["stream-rejected"]++
+			return
+		}
+		defer f.Close()
+		if _, err := f.NewSheet("Plain"); err != nil {
+			return
+		}
+		_ = f.SetCellValue("Plain", "B2", "p")
+		c.Count("streamed", true, fmt.Sprint(h))
+		c.R.Dist["streamed-sheet"]++
+		o0 := allSheetsObservation(f, 9, 12)
+		d1, n1, e1 := decodedObservation(f, 9, 12)
+		o1 := allSheetsObservation(f, 9, 12)
+		d2, n2, e2 := decodedObservation(f, 9, 12)
+		o2 := allSheetsObservation(f, 9, 12)
+		if e1 != nil || e2 != nil {
+			c.Fail("oracle", "C02_save_twice", desc, fmt.Sprintf("saving a workbook with a stream-written sheet failed: %v / %v", e1, e2), "")
+			return
+		}
+		if o0 != o1 || o1 != o2 {
+			a, b := o0, o1
+			if o0 == o1 {
+				a, b = o1, o2
+			}
+			c.Fail("oracle", "C02_getters_pure", desc, "stream-written sheet: getters changed after saving: "+firstDiff(a, b), "")
+		}
+		if d1 != d2 || strings.Join(n1, ",") != strings.Join(n2, ",") {
+			c.Fail("oracle", "C02_save_twice", desc, "stream-written sheet: a second save of the unmodified workbook decodes differently: "+firstDiff(d1, d2), "")
+		}
+	})
 }
